@@ -23,11 +23,14 @@ def curve(r, kind):
 
 
 curves, zc, po = {}, {}, {}
-ids = [0, 1, 2, 3, 4, 6, 8, 20, 21, 22, 23, 100, 101, 102, 120, 121]
+# short Weierstrass: 0..19 (base field Fq / Fq2), 40..59 (Fq3), toy 100..119; twisted Edwards: 20..39, toy 120..
+ids = [0, 1, 2, 3, 4, 6, 8, 9, 10, 11, 12, 13, 14, 15, 16, 17, 40, 41, 42,
+       20, 21, 22, 23, 24, 25, 26, 27, 28, 29, 30, 31,
+       100, 101, 102, 103, 104, 105, 106, 107, 120, 121, 122]
 for i, l in zip(ids, run('0:dump %x\n' % i for i in ids)):
     r = parse(l)
     assert r[0] == [0], (i, l)
-    curves[i] = curve(r, 'te' if (20 <= i < 100 or i >= 120) else 'sw')
+    curves[i] = curve(r, 'te' if (20 <= i < 40 or i >= 120) else 'sw')
 for i, l in zip([0, 1], run('0:zc_dump %x\n' % i for i in (0, 1))):
     r = parse(l)
     assert r[0] == [0], (i, l)
